@@ -703,7 +703,9 @@ fn search(oracle: &str, seed: u64) -> Outcome {
                 let mut bases: Vec<i64> = vec![TSMIN, TSMIN + 1_000_000, -1_000_000, 0, 1_000_000, TSMAX - 999_999, TSMAX - 999_999 - 1_000_000];
                 for k in 0..2000i64 { bases.push((DMIN + k * 1826) * DAY + (k * 7919 % 86400) * 1_000_000); }
                 let offs: Vec<f64> = vec![0.0, 0.5, -0.5, 1.0, -1.0, 0.00001, -0.00001, 0.000007, -0.000007, 0.000005787037037037037, 0.0000115, 1.0 / 86400.0, 1.5 / 86400.0,
-                    -1.5 / 86400.0, 0.25, 365.25, -365.25, 0.00000095367431640625];
+                    -1.5 / 86400.0, 0.25, 365.25, -365.25, 0.00000095367431640625,
+                    499_999.0 / 86_400_000_000.0, 500_000.0 / 86_400_000_000.0, 500_001.0 / 86_400_000_000.0,
+                    -499_999.0 / 86_400_000_000.0, -500_000.0 / 86_400_000_000.0, -500_001.0 / 86_400_000_000.0, 1_499_999.0 / 86_400_000_000.0];
                 for &b in &bases { if b < TSMIN || b > TSMAX { continue; } for &d in &offs {
                     n_eval += 1;
                     let od = OracleDate::try_from_usecs(b).unwrap();
@@ -716,6 +718,26 @@ fn search(oracle: &str, seed: u64) -> Outcome {
                     let act = match &r { Ok(v) => format!("Ok(usecs={})", v.usecs()), Err(_) => "Err".to_string() };
                     if act != exp { fail!(format!("OracleDate(usecs={}).add_days({:e})", b, d), exp, act); }
                     if let Ok(v) = &r { if v.usecs() % 1_000_000 != 0 || v.usecs() < TSMIN || v.usecs() > TSMAX { fail!(format!("OracleDate(usecs={}).add_days({:e})", b, d), "a whole second inside the range".into(), format!("usecs={}", v.usecs())); } }
+                    // the three wrappers are the same operation
+                    n_eval += 2;
+                    let act2 = match od.sub_days(-d) { Ok(v) => format!("Ok(usecs={})", v.usecs()), Err(_) => "Err".to_string() };
+                    if act2 != exp { fail!(format!("OracleDate(usecs={}).sub_days({:e})", b, -d), exp, act2); }
+                    let act3 = match Timestamp::try_from_usecs(b).unwrap().oracle_add_days(d) { Ok(v) => format!("Ok(usecs={})", v.usecs()), Err(_) => "Err".to_string() };
+                    if act3 != exp { fail!(format!("Timestamp(usecs={}).oracle_add_days({:e})", b, d), exp, act3); }
+                }}
+                None
+            }
+            "od_sub_date" => {
+                domain = "pairs of Oracle dates (range ends, around 1970, differing times of day, both orders): sub_date == (a - b) us as f64 / 86 400 000 000";
+                exhaustive = false;
+                let vs: Vec<i64> = vec![TSMIN, TSMIN + 43_200_000_000, -DAY - 1_000_000, -43_200_000_000, -1_000_000, 0, 1_000_000, 43_200_000_000, DAY, DAY + 21_600_000_000,
+                    -11_676_096_001_000_000, 1_577_836_800_000_000, 1_577_944_800_000_000, TSMAX - 999_999 - 43_200_000_000, TSMAX - 999_999];
+                for &a in &vs { for &b in &vs {
+                    n_eval += 1;
+                    let (x, y) = (OracleDate::try_from_usecs(a).unwrap(), OracleDate::try_from_usecs(b).unwrap());
+                    let want = (a - b) as f64 / DAY as f64;
+                    let got = x.sub_date(y);
+                    if got != want { fail!(format!("OracleDate(usecs={}).sub_date(OracleDate(usecs={}))", a, b), format!("{:?}", want), format!("{:?}", got)); }
                 }}
                 None
             }
@@ -878,7 +900,7 @@ fn esc(s: &str) -> String { s.replace('\\', "\\\\").replace('"', "\\\"") }
 fn main() {
     let args: Vec<String> = std::env::args().collect();
     if args.len() >= 2 && args[1] == "list" {
-        println!("date_extract date_from_ymd date_from_days date_add_sub_days date_day_of_week date_add_months ts_add_months last_day_of_month date_trunc date_round ts_trunc ts_round od_trunc od_round ts_split time_tuple time_add_interval interval_ctor od_from_timestamp od_add_days ts_add_days naive_carry parse_grid format_grid and_hms linear_arith mixed_cmp second_accessor scale_f64 fraction_round");
+        println!("date_extract date_from_ymd date_from_days date_add_sub_days date_day_of_week date_add_months ts_add_months last_day_of_month date_trunc date_round ts_trunc ts_round od_trunc od_round ts_split time_tuple time_add_interval interval_ctor od_from_timestamp od_add_days ts_add_days naive_carry parse_grid format_grid and_hms linear_arith mixed_cmp second_accessor scale_f64 fraction_round od_sub_date");
         return;
     }
     if args.len() >= 3 && args[1] == "search" {
